@@ -231,6 +231,9 @@ func (fv *FuncVC) havoc(ms *modSet, tag string) {
 		if esc && fv.closureOnly[a] && fv.inCall && !fv.curCallHasFuncArg {
 			esc = false // captured by a closure only, and this call cannot reach any closure
 		}
+		if esc && fv.closureOnly[a] && fv.deferOnlyCell(a) {
+			esc = false // captured only by closures that are deferred on the spot: they run at the function's exit and nowhere else
+		}
 		if ms.cells[a] || (ms.anyCall && esc) {
 			elem := a.Type().(*types.Pointer).Elem()
 			st.cells[a] = fv.freshWF("c_"+a.Name()+"_"+tag, elem)
@@ -628,4 +631,41 @@ func (fv *FuncVC) bindPhiAliases(env *Env, loop int, phis []*ssa.Phi, valOf func
 		env.names[name] = valOf(phis[k])
 		fv.warn("loop %d: the contract's variable %q is bound to %q (same position; renamed since the pinned tree)", loop, name, phiName(phis[k]))
 	}
+}
+
+// deferOnlyCell: every closure of this function that captures the local is
+// created as the operand of a defer statement and has no other use, so no call
+// made before the function's exit can run it (and thereby write the local).
+func (fv *FuncVC) deferOnlyCell(a *ssa.Alloc) bool {
+	if fv.deferOnly == nil {
+		fv.deferOnly = map[*ssa.Alloc]bool{}
+		bad := map[*ssa.Alloc]bool{}
+		for _, b := range fv.Fn.Blocks {
+			for _, in := range b.Instrs {
+				mc, ok := in.(*ssa.MakeClosure)
+				if !ok {
+					continue
+				}
+				only := mc.Referrers() != nil && len(*mc.Referrers()) > 0
+				if only {
+					for _, r := range *mc.Referrers() {
+						if d, isDefer := r.(*ssa.Defer); !isDefer || d.Call.Value != mc {
+							only = false
+						}
+					}
+				}
+				for _, bd := range mc.Bindings {
+					if al, ok := bd.(*ssa.Alloc); ok {
+						if only && !bad[al] {
+							fv.deferOnly[al] = true
+						} else {
+							bad[al] = true
+							fv.deferOnly[al] = false
+						}
+					}
+				}
+			}
+		}
+	}
+	return fv.deferOnly[a]
 }
